@@ -82,9 +82,18 @@ type In struct {
 // numeral is much cheaper for coqc than a list of small ones.
 func bz(b []byte) cf.T {
 	if len(b) == 0 {
-		return "[]"
+		return "(@nil Z)"
 	}
 	return cf.T(fmt.Sprintf("(bz %d%%nat 0x%x)", len(b), b))
+}
+
+// lst prints a list whose element type is named when it is empty: an untyped [] costs coqc a
+// unification variable, and thousands of them in one definition make elaboration quadratic.
+func lst[A any](typ string, xs []A, f func(A) cf.T) cf.T {
+	if len(xs) == 0 {
+		return cf.T("(@nil " + typ + ")")
+	}
+	return cf.ListOf(xs, f)
 }
 func bzs(s string) cf.T { return bz([]byte(s)) }
 
@@ -101,7 +110,7 @@ func slotT(s Slot) cf.T {
 	return cf.App("Build_skey", k, cf.Bool(s.Desc))
 }
 
-func sortT(so []Slot) cf.T { return cf.ListOf(so, slotT) }
+func sortT(so []Slot) cf.T { return lst("skey", so, slotT) }
 
 func afterT(a []AfterSlot, so []Slot) cf.T {
 	var sc uint64
@@ -112,11 +121,13 @@ func afterT(a []AfterSlot, so []Slot) cf.T {
 			sc = s.Score
 		}
 	}
-	return cf.App("Build_after_doc", cf.List(keys), cf.U(sc))
+	return cf.App("Build_after_doc", lst("bytes", keys, func(t cf.T) cf.T { return t }), hx(sc))
 }
 
+func hx(u uint64) cf.T { return cf.T(fmt.Sprintf("0x%x", u)) }
+
 func obsT(ids []string, total uint64, max float64) cf.T {
-	return cf.App("Build_observed", cf.ListOf(ids, bzs), cf.U(total), cf.U(math.Float64bits(max)))
+	return cf.App("Build_observed", lst("bytes", ids, bzs), hx(total), hx(math.Float64bits(max)))
 }
 
 // ---------------------------------------------------------------- sort construction
@@ -518,9 +529,9 @@ func execColl(in In) vh.Result {
 		after = cf.Some(afterT(in.After, in.Sort))
 		skip = 0
 	}
-	msT := cf.ListOf(in.Matches, func(m Match) cf.T {
-		return cf.App("Build_cmatch", bzs(m.ID), cf.U(m.Score),
-			cf.ListOf(m.Terms, func(ts [][]byte) cf.T { return cf.ListOf(ts, bz) }))
+	msT := lst("cmatch", in.Matches, func(m Match) cf.T {
+		return cf.App("Build_cmatch", bzs(m.ID), hx(m.Score),
+			lst("(list bytes)", m.Terms, func(ts [][]byte) cf.T { return lst("bytes", ts, bz) }))
 	})
 	n := len(in.Matches)
 	store := "slice"
@@ -657,9 +668,9 @@ func execAPI(in In) vh.Result {
 	}
 	arrival := append(search.DocumentMatchCollection{}, full.hits...)
 	sort.SliceStable(arrival, func(a, b int) bool { return arrival[a].HitNumber < arrival[b].HitNumber })
-	msT := cf.ListOf(arrival, func(h *search.DocumentMatch) cf.T {
-		return cf.App("Build_amatch", cf.U(h.HitNumber), bzs(h.ID), cf.U(math.Float64bits(h.Score)),
-			cf.ListOf(h.Sort, bzs))
+	msT := lst("amatch", arrival, func(h *search.DocumentMatch) cf.T {
+		return cf.App("Build_amatch", hx(h.HitNumber), bzs(h.ID), hx(math.Float64bits(h.Score)),
+			lst("bytes", h.Sort, bzs))
 	})
 	// the values a client passes to continue from hit h, and what the sentinel then carries
 	anchor := func(h *search.DocumentMatch) ([]string, cf.T, bool) {
@@ -682,7 +693,7 @@ func execAPI(in In) vh.Result {
 				args[x] = h.Sort[x]
 			}
 		}
-		return args, cf.App("Build_after_doc", cf.List(keys), cf.U(sc)), true
+		return args, cf.App("Build_after_doc", lst("bytes", keys, func(t cf.T) cf.T { return t }), hx(sc)), true
 	}
 	var probes []cf.T
 	nAfter, nBefore, nFrom := 0, 0, 0
@@ -774,7 +785,7 @@ func execAPI(in In) vh.Result {
 		hist = append(hist, "api:probe-before")
 	}
 	return vh.Result{
-		Term:       cf.App("CApi", sortT(in.Sort), msT, cf.List(probes)),
+		Term:       cf.App("CApi", sortT(in.Sort), msT, lst("probe", probes, func(t cf.T) cf.T { return t })),
 		Nontrivial: n >= 3 && nAfter+nBefore > 0, Hist: hist,
 	}
 }
@@ -802,6 +813,6 @@ func main() {
 			"API level: Index.Search on scorch(in-memory) and upsidedown indexes built in several batches with deletes and re-indexing, the implementation's own " +
 			"Size=all listing (in HitNumber order, with hit.Sort keys) is the match stream, probes = From/Size tilings, SearchAfter walks, SearchBefore walks, random anchors; " +
 			"non-trivial: collector cases where something is evicted and something returned, API cases with >=3 hits and at least one SearchAfter/SearchBefore probe",
-		ShardSize: 60,
+		ShardSize: 40,
 	}, gen, exec)
 }
